@@ -1,6 +1,7 @@
 """C02 - tag writes change exactly the addressed data, exactly once."""
 from vlib.bench import ScenarioDead
 from vlib import common, logixreq
+from vlib import refproject as rpj
 from vlib.logixbench import CONFIGS, LogixScenario
 
 LEVEL = "exploration"
@@ -22,7 +23,10 @@ RULE = ("random projects/memory images/configurations as for C01; each write() c
         "shared tag list) whose first connected request - Forward Open and its fallback included - is one of these writes. distinct = (request shape, value kind, service path, config) evaluated")
 ASSUMPTIONS = [
     "reference target validates like a controller: type code / structure handle must match, data length must equal count x element size, read-modify-write length must be 2 + 2 x size",
-    "requests of one call that overlap in memory are judged at journal level only (application order between requests is not stated)",
+    "requests of one call that overlap in memory: each is judged at journal level (executed exactly once with its own encoding); in addition a byte addressed by "
+    "several successful PLAIN writes (one Write Tag service each) must hold the value of the last of them in request order - the only reading under which 'reading the "
+    "same address afterwards returns the written value' can hold for the final request; overlaps involving fragmented transfers or bit writes (classes the driver "
+    "sends after the plain writes) stay at journal level, their mutual order is not stated anywhere",
     "string DATA bytes after LEN, structure padding and hidden non-BOOL members are don't-cares",
 ]
 ANCHORS = [
@@ -79,7 +83,14 @@ def run(ctx):
     for pi in range(nproj):  # WRAPPED
         try:
             cfg = CONFIGS[(pi * ctx.nshards + ctx.shard) % len(CONFIGS)]
-            sc = LogixScenario(rng, size=rng.choice(["small", "small", "medium", "medium", "large", "fixture"]), config=cfg)
+            size_ = rng.choice(["small", "small", "medium", "medium", "large", "fixture"])
+            project_, ovl = None, None
+            if size_ != "fixture" and pi % 3 == 0:
+                # a DINT array sized so that two slices of it do not share a multi-service packet: overlapping requests of one call
+                # are then spread over several packets (see "last request wins" below)
+                project_ = rpj.generate_project(rng, size_, fw=cfg[1], micro800=cfg[2])
+                ovl = rpj.add_array_tag(project_, rng, "OvlArr_q", rng.choice(["DINT", "INT", "REAL"]), (4000 if cfg[3] else 500) * 6 // 10 // 4 + rng.randrange(40))
+            sc = LogixScenario(rng, size=size_, config=cfg, project=project_)
             res.count("projects")
             if not sc.ok():
                 res.ev()
@@ -115,9 +126,24 @@ def run(ctx):
                     dup = reqs[0]
                     r2 = logixreq.Req(dup.text, dup.tag, dup.dtype, dup.offset, dup.count, dup.explicit, dup.kind, bit=dup.bit, avail=dup.avail, shape=dup.shape)
                     reqs.append(logixreq.attach_value(r2, rng))
+                ordered = False
+                if ovl is not None and ci % 4 == 1:
+                    # requests that overlap in memory, all plain writes: slice, the same slice again, then one element inside it - in
+                    # this order, so that a driver which packs requests out of order shows (the last request for a byte must win)
+                    n_ = min(ovl.elements, (sc.conn_size * 6 // 10) // ovl.dtype.size)
+                    k_ = rng.randrange(n_)
+                    reqs = [logixreq.Req(f"{ovl.name}{{{n_}}}", ovl, ovl.dtype, 0, n_, True, "value", avail=ovl.elements, shape="[]{n}:atomic"),
+                            logixreq.Req(f"{ovl.name}[0]{{{n_}}}", ovl, ovl.dtype, 0, n_, True, "value", avail=ovl.elements, shape="[1d]{n}:atomic"),
+                            logixreq.Req(f"{ovl.name}[{k_}]", ovl, ovl.dtype, k_ * ovl.dtype.size, 1, False, "value", avail=ovl.elements - k_, shape="[1d]:atomic")]
+                    if rng.random() < 0.5:
+                        reqs.append(logixreq.Req(f"{ovl.name}[{k_}]", ovl, ovl.dtype, k_ * ovl.dtype.size, 1, False, "value", avail=ovl.elements - k_, shape="[1d]:atomic"))
+                    reqs = [logixreq.attach_value(r_, rng) for r_ in reqs]
+                    ordered = True
+                    res.count("calls-with-ordered-overlapping-requests")
                 if not reqs:
                     continue
-                rng.shuffle(reqs)
+                if not ordered:
+                    rng.shuffle(reqs)
                 snap = prj.snapshot()
                 jbefore = len(dev.write_journal)
                 # sometimes the controller refuses one write service of the call (e.g. the 2nd fragment of a fragmented write):
@@ -127,9 +153,14 @@ def run(ctx):
                     nth = rng.choice([1, 2, 2, 3, 4])
                     cnt = {"n": 0}
                     # (also general statuses the library has no text for - 0x17..0x21, 0x30, 0xD0: a refusal is a refusal)
-                    stt = rng.choice([(0x02, ()), (0x05, ()), (0xFF, (0x2107,)), (0x0F, ()), (0x17, ()), (0x19, ()), (0x20, ()), (0x21, (0x0003,)), (0x30, ()), (0xD0, ())])
+                    # 0x06 ("partial transfer") means "go on" for the fragmented services only: as the answer to a Write Tag or a
+                    # Read-Modify-Write it is a refusal like any other - nothing was stored
+                    stt = rng.choice([(0x02, ()), (0x05, ()), (0xFF, (0x2107,)), (0x0F, ()), (0x17, ()), (0x19, ()), (0x20, ()), (0x21, (0x0003,)), (0x30, ()), (0xD0, ()),
+                                      (0x06, ()), (0x06, ())])
 
                     def inject(rq, loc, nth=nth, cnt=cnt, stt=stt):
+                        if stt[0] == 0x06 and rq.service == 0x53:
+                            return None
                         if rq.service in (0x4D, 0x53, 0x4E):
                             cnt["n"] += 1
                             if cnt["n"] == nth:
@@ -181,6 +212,7 @@ def run(ctx):
                 # ---- journal: each successful request executed exactly once --------------------------------------------
                 used = [False] * len(journal)
                 bit_groups = {}
+                plain_idx = set()   # successful requests the controller executed as ONE plain Write Tag service
                 for i in sorted(ok_idx):
                     r = reqs[i]
                     if r.kind == "bit" or (r.kind == "boolarray" and not r.is_list):
@@ -196,6 +228,8 @@ def run(ctx):
                             and (e.get("bit") == (r.bit if r.kind == "boolmember" else None))]
                     if hits:
                         used[hits[0]] = True
+                        if r.kind == "value":
+                            plain_idx.add(i)
                         continue
                     frags = [(j, e) for j, e in enumerate(journal) if not used[j] and e["kind"] == "write_frag" and e["tag"] == r.tag.full_name
                              and lo <= e["offset"] < lo + total and e["total"] == total]
@@ -301,6 +335,29 @@ def run(ctx):
                             res.violation(f"wrong-bytes-written:{rr.dtype.kind}", f"after write({rr.text!r}, {rr.value!r:.80}) byte {off} of {tname} is {b:#04x}, reference encoding has {spec:#04x} ({sc.label})",
                                           {"request": rr.text, "value": rr.value, "config": sc.label})
                             break
+                    # Requests of one call that overlap in memory.  What the statement fixes for them: a request reported as successful
+                    # leaves its value in memory, and a later read returns "the written value" - for a byte that several successful
+                    # requests address that can only be the value of the LAST of them.  Judged where all those requests are plain Write
+                    # Tag services (one service each, no fragmentation, no read-modify-write): the driver sends these in request
+                    # order.  Overlaps that involve fragmented transfers or bit writes stay judged at journal level only - the driver
+                    # sends those classes after the plain writes, and no document says what a caller may expect of such a mixture.
+                    if overlapping and tname in masks:
+                        owners_of = {}
+                        for i, r in enumerate(reqs):
+                            if r.tag.full_name == tname and i in overlapping:
+                                for off_, spec_ in logixreq.mask_for_write(r).items():
+                                    owners_of.setdefault(off_, []).append((i, spec_))
+                        for off_, lst in owners_of.items():
+                            if len(lst) < 2 or any(i not in plain_idx for i, _ in lst) or any(lo <= off_ < hi for lo, hi in skip):
+                                continue
+                            last_i, last_spec = lst[-1]
+                            res.count("overlapped-bytes-judged-last-request-wins")
+                            if isinstance(last_spec, int) and now[off_] != last_spec:
+                                res.violation("overlapping-writes:last-request-does-not-win",
+                                              f"write({[r.text for r in reqs]!r:.200}): byte {off_} of {tname} is addressed by requests {[i for i, _ in lst]} (all plain writes, all successful); "
+                                              f"it holds {now[off_]:#04x}, the last of them ({reqs[last_i].text!r}) wrote {last_spec:#04x} ({sc.label})",
+                                              {"config": sc.label, "requests": [r.text for r in reqs]})
+                                break
                 # ---- read back -----------------------------------------------------------------------------------------------------
                 for i in sorted(ok_idx):
                     if i in overlapping or rng.random() < 0.5:
